@@ -8,16 +8,15 @@ use curve25519_dalek::{
 };
 use merlin::Transcript;
 use serde_json::{json, Value};
-use symcore::with;
 use tari_bulletproofs_plus::{
     generators::pedersen_gens::ExtensionDegree,
     range_parameters::RangeParameters,
-    range_proof::{RangeProof, VerifyAction},
+    range_proof::VerifyAction,
     range_statement::RangeStatement,
     ristretto::{self, RistrettoRangeProof},
 };
 
-use crate::{action_of, err_json, ext_degree, proof_layout};
+use crate::{env, err_json, ext_degree, named_basis, run_verify};
 
 fn scalar_of(bytes: &[u8]) -> Scalar {
     let mut b = [0u8; 32];
@@ -48,7 +47,12 @@ pub fn role(x: usize, e: usize) -> (&'static str, usize) {
 }
 
 /// tamper spec: null | {"op": ..., "elem": e, ...}
-pub fn tamper_proof(p: &RistrettoRangeProof, spec: &Value) -> (RistrettoRangeProof, Value) {
+pub fn tamper_proof(
+    p: &RistrettoRangeProof,
+    spec: &Value,
+    params: &RangeParameters<RistrettoPoint>,
+    idx: usize,
+) -> (RistrettoRangeProof, Value) {
     if spec.is_null() {
         return (p.clone(), Value::Null);
     }
@@ -61,38 +65,29 @@ pub fn tamper_proof(p: &RistrettoRangeProof, spec: &Value) -> (RistrettoRangePro
     match op {
         "scalar_add_delta" => {
             let s = scalar_of(&bytes[off..off + 32]);
-            let d = Scalar::sym(&format!("delta_{}", spec["name"].as_str().unwrap_or("0")), "delta");
+            let d = env::sym_scalar(&format!("delta_{}_{}", idx, spec["name"].as_str().unwrap_or("0")), "delta");
             let t = s + d;
             bytes[off..off + 32].copy_from_slice(t.as_bytes());
-            info["delta"] = json!(d.node());
-        },
-        "scalar_add_node" => {
-            // add an existing node (given by id) times an optional sign
-            let s = scalar_of(&bytes[off..off + 32]);
-            let d = Scalar::from_node(spec["node"].as_u64().unwrap() as u32);
-            let t = if spec["neg"].as_bool().unwrap_or(false) { s - d } else { s + d };
-            bytes[off..off + 32].copy_from_slice(t.as_bytes());
+            info["delta"] = env::scalar_id(&d);
         },
         "point_add_delta_basis" => {
             // P + delta * X where X is a basis point of the statement or a fresh free point
             let mut b = [0u8; 32];
             b.copy_from_slice(&bytes[off..off + 32]);
             let pt = CompressedRistretto(b).decompress().expect("point element");
-            let d = Scalar::sym(&format!("delta_{}", spec["name"].as_str().unwrap_or("0")), "delta");
-            let xpt = match spec["basis_point"].as_u64() {
-                Some(id) => RistrettoPoint::from_id(id as u32),
-                None => RistrettoPoint::free(),
-            };
+            let d = env::sym_scalar(&format!("delta_{}_{}", idx, spec["name"].as_str().unwrap_or("0")), "delta");
+            let xpt = named_basis(params, &spec["basis"], &format!("tx_{}_{}", idx, e));
             let q = pt + xpt * d;
             bytes[off..off + 32].copy_from_slice(q.compress().as_bytes());
-            info["delta"] = json!(d.node());
-            info["x_point"] = json!(xpt.id());
+            info["delta"] = env::scalar_id(&d);
+            info["x_point"] = env::point_id(&xpt);
         },
         "point_identity" => {
             bytes[off..off + 32].copy_from_slice(&[0u8; 32]);
         },
         "elem_opaque" => {
-            let b = with(|c| c.new_elem());
+            let is_point = !matches!(role(x, e).0, "d1" | "r1" | "s1");
+            let (b, _) = env::new_elem(is_point, &format!("te_{}_{}", idx, e));
             bytes[off..off + 32].copy_from_slice(&b);
         },
         "swap" => {
@@ -111,7 +106,7 @@ pub fn tamper_proof(p: &RistrettoRangeProof, spec: &Value) -> (RistrettoRangePro
                 if k < x {
                     nb.extend_from_slice(&bytes[1 + 32 * k..1 + 32 * (k + 1)]);
                 } else {
-                    nb.extend_from_slice(Scalar::sym(&format!("d1x_{}", k), "delta").as_bytes());
+                    nb.extend_from_slice(env::sym_scalar(&format!("d1x_{}_{}", idx, k), "delta").as_bytes());
                 }
             }
             nb.extend_from_slice(&bytes[1 + 32 * x..]);
@@ -125,8 +120,8 @@ pub fn tamper_proof(p: &RistrettoRangeProof, spec: &Value) -> (RistrettoRangePro
             bytes.truncate(l - 64);
         },
         "add_round" => {
-            let l = RistrettoPoint::free().compress();
-            let r = RistrettoPoint::free().compress();
+            let l = env::free_point(&format!("xl_{}", idx)).compress();
+            let r = env::free_point(&format!("xr_{}", idx)).compress();
             bytes.extend_from_slice(l.as_bytes());
             bytes.extend_from_slice(r.as_bytes());
         },
@@ -169,12 +164,7 @@ pub fn tamper_statement(
                 Value::String(s) if s == "sym" => {
                     // a new symbolic promise: registered concrete stand-in
                     let conc = spec["concrete"].as_str().unwrap().parse::<u64>().unwrap();
-                    with(|c| {
-                        let node = c.var(&format!("pp_{}_{}", idx, j), "promise", Some(symcore::fl::Fl::from_u64(conc)), json!({"member":idx,"j":j,"substituted":true}));
-                        if let symcore::Op::Var(vid) = c.op(node).clone() {
-                            c.register_u64(conc, symcore::U64Reg::Var(vid));
-                        }
-                    });
+                    env::register_u64(&format!("pp_{}_{}", idx, j), "promise", conc, json!({"member":idx,"j":j,"substituted":true}));
                     Some(conc)
                 },
                 Value::String(s) => Some(s.parse::<u64>().unwrap()),
@@ -183,11 +173,8 @@ pub fn tamper_statement(
         },
         "commitment_add_delta_basis" => {
             let j = spec["j"].as_u64().unwrap() as usize;
-            let d = Scalar::sym(&format!("delta_c{}", j), "delta");
-            let xpt = match spec["basis_point"].as_u64() {
-                Some(id) => RistrettoPoint::from_id(id as u32),
-                None => RistrettoPoint::free(),
-            };
+            let d = env::sym_scalar(&format!("delta_c_{}_{}", idx, j), "delta");
+            let xpt = named_basis(&st.generators, &spec["basis"], &format!("cx_{}_{}", idx, j));
             commitments[j] = commitments[j] + xpt * d;
         },
         "swap_commitments" => {
@@ -196,7 +183,7 @@ pub fn tamper_statement(
             commitments.swap(i, j);
         },
         "seed_other" => {
-            seed = Some(Scalar::sym(&format!("seed_other_{}", idx), "seed"));
+            seed = Some(env::sym_scalar(&format!("seed_other_{}", idx), "seed"));
         },
         "seed_none" => {
             seed = None;
@@ -219,11 +206,11 @@ pub fn tamper_statement(
         "g_base" | "h_base" => {
             let mut pc = ristretto::create_pedersen_gens_with_extension_degree(ext_degree(x));
             if op == "h_base" {
-                pc.h_base = RistrettoPoint::free();
+                pc.h_base = env::free_point(&format!("hx_{}", idx));
                 pc.h_base_compressed = pc.h_base.compress();
             } else {
                 let k = spec["k"].as_u64().unwrap_or(0) as usize;
-                pc.g_base_vec[k] = RistrettoPoint::free();
+                pc.g_base_vec[k] = env::free_point(&format!("gx_{}_{}", idx, k));
                 pc.g_base_compressed_vec[k] = pc.g_base_vec[k].compress();
             }
             params = RangeParameters::init(n, st.generators.max_aggregation_factor(), pc).expect("params");
@@ -234,7 +221,8 @@ pub fn tamper_statement(
 }
 
 /// Fully adversarial proofs (C02, C08, C16): every proof element is an opaque symbolic element,
-/// commitments are free points. cfg: n, x, members:[{m, cap, rounds, tag, promises:[..], seeded}], action, forced
+/// commitments are free points. cfg: n, x, members:[{m, cap, rounds, tag, d1, promises:[..], seeded,
+/// identity_elems, undecodable_elems, noncanonical_elems}], action(s), forced
 pub fn run_adversarial(cfg: &Value) -> Value {
     let n = cfg["n"].as_u64().unwrap() as usize;
     let x = cfg["x"].as_u64().unwrap_or(1) as usize;
@@ -252,28 +240,20 @@ pub fn run_adversarial(cfg: &Value) -> Value {
         let sn = mc["n"].as_u64().unwrap_or(n as u64) as usize;
         let pc_gens = ristretto::create_pedersen_gens_with_extension_degree(ext_degree(sx));
         let params = RangeParameters::init(sn, cap, pc_gens).expect("params");
-        let commitments: Vec<RistrettoPoint> = (0..m).map(|_| RistrettoPoint::free()).collect();
+        let commitments: Vec<RistrettoPoint> = (0..m).map(|j| env::free_point(&format!("V_{}_{}", i, j))).collect();
         let mut promises = Vec::new();
         let mut pinfo = Vec::new();
         for j in 0..m {
             match mc["promises"].get(j).cloned().unwrap_or(Value::Null) {
                 Value::String(s) if s == "sym" => {
-                    // symbolic promise: concrete stand-in that fits the bit length
+                    // symbolic promise: a concrete stand-in that fits the bit length
                     let maxv: u64 = if sn >= 64 { u64::MAX } else { (1u64 << sn) - 1 };
                     let mut conc = 9 + (i * 17 + j * 5) as u64;
-                    if conc > maxv || [sn as u64, m as u64, sx as u64, cap as u64].contains(&conc) {
+                    if conc > maxv || [sn as u64, m as u64, sx as u64, cap as u64, 16, 32, 64].contains(&conc) {
                         conc = maxv;
                     }
-                    let registered = with(|c| {
-                        if conc < 7 || c.lookup_u64(conc).is_some() {
-                            return false;
-                        }
-                        let node = c.var(&format!("p_{}_{}", i, j), "promise", Some(symcore::fl::Fl::from_u64(conc)), json!({"member":i,"j":j}));
-                        if let symcore::Op::Var(vid) = c.op(node).clone() {
-                            c.register_u64(conc, symcore::U64Reg::Var(vid));
-                        }
-                        true
-                    });
+                    let registered =
+                        conc >= 7 && env::register_u64(&format!("p_{}_{}", i, j), "promise", conc, json!({"member":i,"j":j}));
                     promises.push(Some(conc));
                     pinfo.push(json!({"p": conc.to_string(), "p_sym": registered}));
                 },
@@ -287,36 +267,49 @@ pub fn run_adversarial(cfg: &Value) -> Value {
                 },
             }
         }
-        let seed = if mc["seeded"].as_bool().unwrap_or(false) { Some(Scalar::sym(&format!("seed_{}", i), "seed")) } else { None };
-        let commit_ids: Vec<u32> = commitments.iter().map(|p| p.id()).collect();
+        let seed = if mc["seeded"].as_bool().unwrap_or(false) { Some(env::sym_scalar(&format!("seed_{}", i), "seed")) } else { None };
+        let commit_ids: Vec<Value> = commitments.iter().map(env::point_id).collect();
         let st = match RangeStatement::init(params, commitments, promises, seed) {
             Ok(s) => s,
             Err(e) => return json!({"error": format!("statement init: {:?}", e)}),
         };
-        // proof bytes
+        // proof bytes: tag, then nd1 + 5 + 2*rounds opaque elements
         let mut bytes = vec![tag as u8];
         let mut elems = Vec::new();
-        for _ in 0..(nd1 + 5 + 2 * rounds) {
-            let b = with(|c| c.new_elem());
-            elems.push(with(|c| c.dec32(&b).unwrap()));
-            bytes.extend_from_slice(&b);
-        }
-        // optional special elements: identity points / shared elements
-        if let Some(sp) = mc["identity_elems"].as_array() {
-            for e in sp {
-                let e = e.as_u64().unwrap() as usize;
-                bytes[1 + 32 * e..1 + 32 * (e + 1)].copy_from_slice(&[0u8; 32]);
-            }
+        let mut raw: Vec<[u8; 32]> = Vec::new();
+        for e in 0..(nd1 + 5 + 2 * rounds) {
+            let is_point = !matches!(role(nd1, e).0, "d1" | "r1" | "s1");
+            let (b, id) = env::new_elem(is_point, &format!("pe_{}_{}", i, e));
+            elems.push(id);
+            raw.push(b);
         }
         if let Some(sp) = mc["undecodable_elems"].as_array() {
             for e in sp {
-                let id = elems[e.as_u64().unwrap() as usize];
-                with(|c| c.undecodable.push(id));
+                let e = e.as_u64().unwrap() as usize;
+                raw[e] = env::mark_undecodable(&raw[e]);
             }
         }
-        let dec = RistrettoRangeProof::from_bytes(&bytes);
-        infos.push(json!({"idx":i,"m":m,"cap":cap,"tag":tag,"rounds":rounds,"elems":elems,"commitments":commit_ids,
-            "promises":pinfo,"decode":err_json(&dec), "seed_node": seed.map(|s| s.node()), "layout": proof_layout(&bytes)}));
+        if let Some(sp) = mc["noncanonical_elems"].as_array() {
+            for e in sp {
+                let e = e.as_u64().unwrap() as usize;
+                raw[e] = env::mark_noncanonical(&raw[e]);
+            }
+        }
+        if let Some(sp) = mc["identity_elems"].as_array() {
+            for e in sp {
+                raw[e.as_u64().unwrap() as usize] = [0u8; 32];
+            }
+        }
+        for b in &raw {
+            bytes.extend_from_slice(b);
+        }
+        let dec = catch_unwind(AssertUnwindSafe(|| RistrettoRangeProof::from_bytes(&bytes)));
+        let dec = match dec {
+            Ok(d) => d,
+            Err(_) => return json!({"members": infos, "decode_panic": true, "verify": Value::Null}),
+        };
+        infos.push(json!({"idx":i,"m":m,"cap":cap,"tag":tag,"rounds":rounds,"d1":nd1,"elems":elems,"commitments":commit_ids,
+            "promises":pinfo,"decode":err_json(&dec), "seed_node": seed.as_ref().map(env::scalar_id), "layout": env::layout(&bytes)}));
         match dec {
             Ok(p) => proofs.push(p),
             Err(_) => return json!({"members": infos, "verify": Value::Null}),
@@ -324,76 +317,44 @@ pub fn run_adversarial(cfg: &Value) -> Value {
         statements.push(st);
         transcripts.push(Transcript::new(b"symx context"));
     }
-    if let Some(f) = cfg["forced"].as_array() {
-        with(|c| {
-            for e in f {
-                let kind = e[0].as_str().unwrap().to_string();
-                let base = *c.branch_counts.get(&kind).unwrap_or(&0);
-                c.forced.insert((kind, base + e[1].as_u64().unwrap() as u32), e[2].as_bool().unwrap());
-            }
-        });
-    }
-    let mut verify_out = Vec::new();
-    let actions: Vec<String> = match cfg["actions"].as_array() {
-        Some(a) => a.iter().map(|v| v.as_str().unwrap().to_string()).collect(),
-        None => vec![cfg["action"].as_str().unwrap_or("VerifyOnly").to_string()],
-    };
-    for act in actions {
-        let mut ts = transcripts.clone();
-        let ev0 = with(|c| c.events.len());
-        let w0 = with(|c| c.work);
-        let r = catch_unwind(AssertUnwindSafe(|| RangeProof::verify_batch(&mut ts, &statements, &proofs, action_of(&act))));
-        let ev1 = with(|c| c.events.len());
-        let w1 = with(|c| c.work);
-        let logs_after: Vec<u32> = ts.iter().map(|t| t.log_id()).collect();
-        match r {
-            Ok(res) => {
-                let mut o = json!({"action":act,"result": err_json(&res), "events":[ev0,ev1], "logs_after":logs_after, "work": w1-w0});
-                if let Ok(masks) = res {
-                    o["masks"] = Value::Array(
-                        masks
-                            .iter()
-                            .map(|mk| match mk {
-                                None => Value::Null,
-                                Some(em) => json!(em.blindings().unwrap().iter().map(|s| s.node()).collect::<Vec<_>>()),
-                            })
-                            .collect(),
-                    );
-                }
-                verify_out.push(o);
-            },
-            Err(_) => verify_out.push(json!({"action":act,"result":"panic","events":[ev0,ev1]})),
-        }
-    }
+    env::set_forced(&cfg["forced"]);
+    let verify_out = run_verify(cfg, &transcripts, &statements, &proofs);
     json!({"members": infos, "verify": verify_out})
 }
 
-/// byte codec (C15/C16): cfg: tag, elems (count of 32-byte symbolic elements), trailing (0..31 literal bytes),
-/// noncanonical: [element indices forced non-canonical]
+/// byte codec (C15/C16): cfg: tag (absent = empty buffer), elems (count of 32-byte symbolic elements),
+/// trailing (0..31 literal bytes), noncanonical: [element indices forced non-canonical]
 pub fn run_codec(cfg: &Value) -> Value {
     let mut bytes: Vec<u8> = Vec::new();
-    if let Some(t) = cfg["tag"].as_u64() {
+    let tag = cfg["tag"].as_u64();
+    if let Some(t) = tag {
         bytes.push(t as u8);
     }
     let ne = cfg["elems"].as_u64().unwrap_or(0) as usize;
+    let nd1 = tag.unwrap_or(0) as usize;
     let mut elems = Vec::new();
-    for _ in 0..ne {
-        let b = with(|c| c.new_elem());
-        elems.push(with(|c| c.dec32(&b).unwrap()));
-        bytes.extend_from_slice(&b);
+    let mut raw: Vec<[u8; 32]> = Vec::new();
+    for e in 0..ne {
+        let is_point = !(e < nd1 || e == nd1 + 3 || e == nd1 + 4);
+        let (b, id) = env::new_elem(is_point, &format!("ce_{}", e));
+        elems.push(id);
+        raw.push(b);
+    }
+    if let Some(nc) = cfg["noncanonical"].as_array() {
+        for e in nc {
+            let e = e.as_u64().unwrap() as usize;
+            raw[e] = env::mark_noncanonical(&raw[e]);
+        }
+    }
+    for b in &raw {
+        bytes.extend_from_slice(b);
     }
     for i in 0..cfg["trailing"].as_u64().unwrap_or(0) {
         bytes.push(0x30 + (i as u8));
     }
-    if let Some(nc) = cfg["noncanonical"].as_array() {
-        for e in nc {
-            let id = elems[e.as_u64().unwrap() as usize];
-            with(|c| c.noncanonical.push(id));
-        }
-    }
-    let ev0 = with(|c| c.events.len());
+    let ev0 = env::events_len();
     let r = catch_unwind(AssertUnwindSafe(|| RistrettoRangeProof::from_bytes(&bytes)));
-    let ev1 = with(|c| c.events.len());
+    let ev1 = env::events_len();
     let mut out = json!({"len": bytes.len(), "elems": elems, "events":[ev0,ev1]});
     let ed = catch_unwind(AssertUnwindSafe(|| RistrettoRangeProof::extension_degree_from_proof_bytes(&bytes)));
     out["ext_from_bytes"] = match ed {
@@ -432,6 +393,6 @@ pub fn run_codec(cfg: &Value) -> Value {
         },
         Err(_) => out["decode"] = json!("panic"),
     }
-    let _ = (ExtensionDegree::DefaultPedersen, VerifyAction::VerifyOnly, CompressedRistretto::identity());
+    let _ = (ExtensionDegree::DefaultPedersen, VerifyAction::VerifyOnly, CompressedRistretto::identity(), Scalar::ZERO);
     out
 }
